@@ -43,6 +43,7 @@ class Check:
         self.inconclusive = []
         self.min_nontrivial = 2
         self.replay_written = None
+        self.nontrivial_count = None   # measured count of distinct non-trivial cases when cases are distinct by construction
 
     # -- accounting
     def note(self, nontrivial_key=None, n=1):
@@ -96,7 +97,8 @@ class Check:
     # -- finish
     def finish(self, witness_files=None):
         wall = time.time() - self.t0
-        cov = {"evaluations": int(self.evaluations), "distinct_nontrivial": len(self.nontrivial),
+        nn = self.nontrivial_count if self.nontrivial_count is not None else len(self.nontrivial)
+        cov = {"evaluations": int(self.evaluations), "distinct_nontrivial": int(nn),
                "rule": self.rule, "samples": self.samples or ["(none)"]}
         cov.update(self.extra)
         cov["known_findings_seen"] = {k: v[0] for k, v in self.known_hits.items()}
@@ -110,7 +112,7 @@ class Check:
         for k, v in self.known_hits.items():
             print("KNOWN-FINDING: property=%s %s [key=%s, seen %d times]" % (self.pid, v[1], k, v[0]))
         print("%s tier=%s seed=%d evaluations=%d distinct_nontrivial=%d wall=%.1fs" %
-              (self.pid, self.tier, self.seed, self.evaluations, len(self.nontrivial), wall))
+              (self.pid, self.tier, self.seed, self.evaluations, nn, wall))
         if self.violations:
             path = self.write_replay(witness_files)
             seen = set()
@@ -121,8 +123,8 @@ class Check:
                 print("  violation key=%s: %s" % (k, t))
             print("VIOLATION property=%s replay=%s" % (self.pid, path))
             sys.exit(1)
-        if len(self.nontrivial) < self.min_nontrivial:
-            self.inconclusive.append("only %d distinct non-trivial cases (< %d)" % (len(self.nontrivial), self.min_nontrivial))
+        if nn < self.min_nontrivial:
+            self.inconclusive.append("only %d distinct non-trivial cases (< %d)" % (nn, self.min_nontrivial))
         if self.inconclusive:
             for why in self.inconclusive:
                 print("INCONCLUSIVE property=%s %s" % (self.pid, why))
